@@ -42,10 +42,71 @@ def ext(key, why, requires=()):
     EXTERNAL_LIST.append({"_key": key, "why": why, "requires": list(requires), "ordinal": None})
 
 
-def lookup(table, base, n):
+import re as _re
+
+_NOT_LOCAL = {"self", "as", "fn", "mut", "dyn", "str", "true", "false", "True", "False", "usize", "isize", "bool", "char",
+              "u8", "u16", "u32", "u64", "u128", "i8", "i16", "i32", "i64", "i128", "f32", "f64"}
+_TOK = _re.compile(r"(?<![\w.:])([a-z_][a-z0-9_]*)((?:~\d+)?)(?![\w(]|::)")
+
+
+def shape(text):
+    """key text with every bare local name replaced by `$` (in order of appearance) + the list of those names: a site keeps its shape when a
+    local variable is renamed"""
+    names = []
+
+    def sub(m):
+        if m.group(1) in _NOT_LOCAL:
+            return m.group(0)
+        names.append(m.group(1) + m.group(2))
+        return "$"
+    return _TOK.sub(sub, text), names
+
+
+def rename_requires(reqs, mapping):
+    """apply a local-variable renaming (table name -> current name) to the regexes of `requires` clauses"""
+    if not mapping:
+        return list(reqs)
+    out = []
+    for rq in reqs:
+        new = []
+        for i, x in enumerate(rq):
+            if isinstance(x, str) and i > 0 and not x.startswith(("receiver::", "common::", "fec::", "tools::", "sender::", "<")):
+                for old, cur in mapping.items():
+                    x = _re.sub(r"(?<![\w.])%s(?![\w])" % _re.escape(_re.sub(r"~\d+$", "", old)), _re.sub(r"~\d+$", "", cur), x)
+            new.append(x)
+        out.append(tuple(new))
+    return out
+
+
+def lookup(table, base, n, used_shapes=None):
     for e in table:
         if e["_key"] == base and (e["ordinal"] is None or e["ordinal"] == n):
             return e
+    if used_shapes is None:
+        return None
+    # second chance: same function, same site kind, same text up to the names of local variables (each entry at most once per run)
+    parts = base.split("|", 2)
+    if len(parts) != 3:
+        return None
+    sh, cur_names = shape(parts[2])
+    for e in table:
+        ep = e["_key"].split("|", 2)
+        if len(ep) != 3 or ep[0] != parts[0] or ep[1] != parts[1] or id(e) in used_shapes:
+            continue
+        esh, old_names = shape(ep[2])
+        if esh == sh and len(old_names) == len(cur_names) and old_names != cur_names:
+            mapping = {}
+            okm = True
+            for o, c in zip(old_names, cur_names):
+                if mapping.setdefault(o, c) != c:
+                    okm = False
+            if not okm:
+                continue
+            used_shapes.add(id(e))
+            e2 = dict(e)
+            e2["requires"] = rename_requires(e.get("requires", []), mapping)
+            e2["renamed"] = mapping
+            return e2
     return None
 
 
